@@ -19,7 +19,10 @@ Explicit parameters (nothing hidden):
   * `pend : Bytes → Bool`   – `coordinator.IsPending(key)` answered `true` **or an error**
                               (shuffle.go: `ok || err != nil` skips the key);
   * `sh : List α → List α`  – the keyed shuffle (keccak/AES-CTR + math/rand; any permutation);
-  * `run : List Bytes → RunnerAns` – what `runner.CheckUpkeep` answers for the keys it is handed;
+  * `run : List Bytes → RunnerAns` – what `runner.CheckUpkeep` answers for the keys it is handed
+                              (harness runner), or - registry-level cases - the model of the repository's v2
+                              runner (`runnerCheck`: cache, batches of 10, aggregation, all-failed test) applied
+                              to the registry calls as they happened;
   * `encErr : Bool`         – `encoder.EncodeReport` fails;
   * JSON decoding of an attributed observation (`encoding/json`) – the
     harness hands over `none` (decode error) or `some obs`.
@@ -428,6 +431,164 @@ def observationIds (sh : List (Option Bytes) → List (Option Bytes)) (ids : Lis
 def observation (sh : List (Option Bytes) → List (Option Bytes)) (pend : Bytes → Bool) (st : Stager) : Bytes :=
   let (block, ids) := observe pend st
   limitedLengthEncode block (observationIds sh ids) Gen.v2MaxObservationLength
+
+/-! ## runner/runner.go : the v2 runner between `CheckUpkeep` and the registry
+
+`Report` and the polling observer do not call the registry; they call `Runner.CheckUpkeep`, which
+answers keys it has a cached result for from the cache, cuts the others into batches of
+`workerBatchLimit` keys, has the worker group call the registry once per batch and aggregates the
+answers.  A batch that comes back WITHOUT an error is a successful call, however many results it
+carries (one per key, fewer - paused / cancelled upkeeps have none -, an empty list, the nil slice):
+its results are cached and added.  A batch that comes back with an error is a failed call; results
+next to the error are dropped.  Only when calls were made and EVERY one of them failed does
+`CheckUpkeep` fail (`ErrTooManyErrors`); otherwise it returns cached and fresh results.
+
+Explicit parameters: which keys end up in which batch (the observer shuffles its sample with
+crypto/rand) and the order in which the workers' answers are aggregated - `calls` is the list of
+registry calls as they happened (`runnerCheck_perm`: their order only permutes the results). -/
+
+/-- `workerBatchLimit: 10` (set by `NewRunner`) -/
+def runnerBatchLimit : Nat := 10
+
+/-- one registry call: the keys of the batch, whether it returned an error, the results returned -/
+structure Call (α : Type) where
+  keys    : List Bytes
+  err     : Bool
+  results : List α
+deriving Repr
+
+/-- `runner.Result`: the accumulator of one `parallelCheck` -/
+structure Tally (α : Type) where
+  successes : Nat := 0
+  failures  : Nat := 0
+  errSet    : Bool := false    -- `Err() != nil`
+  values    : List α := []
+deriving Repr
+
+/-- `wrapAggregate`: the effect of one finished batch on the accumulator -/
+def aggregate {α : Type} (t : Tally α) (c : Call α) : Tally α :=
+  if c.err then { t with errSet := true, failures := t.failures + 1 }
+  else { t with successes := t.successes + 1, values := t.values ++ c.results }
+
+def Tally.total {α : Type} (t : Tally α) : Nat := t.successes + t.failures
+
+/-- the hard-failure test of `parallelCheck`:
+`result.Total() > 0 && result.Total() == result.Failures() && result.Err() != nil` -/
+def allFailed {α : Type} (t : Tally α) : Bool :=
+  decide (t.total > 0) && decide (t.total = t.failures) && t.errSet
+
+/-- the runner's result cache (no entry expires within a case: 20 min); the newest entry of a key first -/
+abbrev RCache (α : Type) := List (Bytes × α)
+
+def cacheGet {α : Type} (c : RCache α) (k : Bytes) : Option α := (c.find? fun e => e.1 == k).map (·.2)
+
+/-- `cache.Set(string(key), res)` for every result of a successful batch, `key` = `Detail(res)` -/
+def cacheSetAll {α : Type} (keyOf : α → Bytes) (c : RCache α) (rs : List α) : RCache α :=
+  rs.foldl (fun c r => (keyOf r, r) :: c) c
+
+def cacheAfter {α : Type} (keyOf : α → Bytes) (cache : RCache α) (calls : List (Call α)) : RCache α :=
+  calls.foldl (fun c call => if call.err then c else cacheSetAll keyOf c call.results) cache
+
+/-- what `Runner.CheckUpkeep` returns -/
+structure RunOut (α : Type) where
+  err     : Bool
+  results : List α
+deriving Repr
+
+/-- the keys `parallelCheck` has to ask the registry about -/
+def toRun {α : Type} (cache : RCache α) (keys : List Bytes) : List Bytes :=
+  keys.filter fun k => (cacheGet cache k).isNone
+
+/-- `Runner.CheckUpkeep` / `parallelCheck` with a live context: new cache and answer -/
+def runnerCheck {α : Type} (keyOf : α → Bytes) (cache : RCache α) (keys : List Bytes) (calls : List (Call α)) :
+    RCache α × RunOut α :=
+  if keys.isEmpty then (cache, ⟨false, []⟩)
+  else
+    let hits := keys.filterMap (cacheGet cache)
+    if (toRun cache keys).isEmpty then (cache, ⟨false, hits⟩)
+    else
+      let t := calls.foldl aggregate { values := hits }
+      if allFailed t then (cacheAfter keyOf cache calls, ⟨true, []⟩)
+      else (cacheAfter keyOf cache calls, ⟨false, t.values⟩)
+
+/-- the registry calls fit the request: the batches are a split of a permutation of the keys to run
+into pieces of at most `runnerBatchLimit`, as few as possible (`util.Unflatten`) -/
+def callsFit {α : Type} (run : List Bytes) (calls : List (Call α)) : Bool :=
+  let asked := calls.flatMap (·.keys)
+  decide (asked.length = run.length) && asked.all (run.contains ·) && run.all (asked.contains ·) &&
+  calls.all (fun c => decide (1 ≤ c.keys.length) && decide (c.keys.length ≤ runnerBatchLimit)) &&
+  decide (calls.length = (run.length + runnerBatchLimit - 1) / runnerBatchLimit)
+
+/-- a head as the REGISTRY sees it: the calls made while it was sampled -/
+structure RegHead where
+  block  : Bytes
+  active : Nat
+  srcErr : Bool
+  calls  : List (Call HeadRes)
+deriving Repr
+
+/-- the keys of the sample: `MakeUpkeepKey(block, id)` for the active ids `1 … active` (harness
+registry; configurations under which every active id is sampled), in some order -/
+def sampleKeys (block : Bytes) (active : Nat) : List Bytes :=
+  (List.range active).map fun i => mkKey block (decOf (i + 1))
+
+/-- the cache key of a result: `Detail(res)`'s key, the nil key when `Detail` fails -/
+def headResKey (r : HeadRes) : Bytes := if r.detailErr then [] else r.key
+
+/-- what the observer gets from the runner for a head the registry answered with `calls` -/
+def regHead (cache : RCache HeadRes) (h : RegHead) : RCache HeadRes × Head :=
+  if h.srcErr || h.active == 0 then (cache, ⟨h.block, h.active, h.srcErr, false, []⟩)
+  else
+    let r := runnerCheck headResKey cache (sampleKeys h.block h.active) h.calls
+    (r.1, ⟨h.block, h.active, false, r.2.err, r.2.results⟩)
+
+/-- consecutive heads through one runner (one cache) -/
+def regHeads : RCache HeadRes → List RegHead → List Head
+  | _, [] => []
+  | cache, h :: rest => (regHead cache h).2 :: regHeads (regHead cache h).1 rest
+
+/-! ## ocr.go : `ShouldAcceptFinalizedReport`, `ShouldTransmitAcceptedReport`; encoding/basic.go : keys -/
+
+/-- the report bytes handed to `ShouldAcceptFinalizedReport`, as the encoder's `KeysFromReport` sees them -/
+inductive ReportBytes
+  | empty                      -- `len(r) == 0`
+  | undecodable                -- `KeysFromReport` fails
+  | keys (ks : List Bytes)
+deriving Repr
+
+/-- `ShouldAcceptFinalizedReport`: (accept, error, the keys handed to `Coordinator.Accept`) -/
+def shouldAccept : ReportBytes → Bool × Bool × List Bytes
+  | .empty => (false, false, [])
+  | .undecodable => (false, true, [])
+  | .keys [] => (false, true, [])
+  | .keys (k :: ks) => (true, false, k :: ks)
+
+/-- `ShouldTransmitAcceptedReport` on what `KeysFromReport` returned (`none` = it failed): (transmit, error) -/
+def shouldTransmit (confirmed : Bytes → Bool) : Option (List Bytes) → Bool × Bool
+  | none => (false, true)
+  | some [] => (false, true)
+  | some ks => (ks.any fun k => !confirmed k, false)
+
+/-- `BasicEncoder.ValidateUpkeepKey` returns `(true, nil)` -/
+def validKey (k : Option Bytes) : Bool :=
+  match k with
+  | none => false                       -- the nil key does not split
+  | some k => match splitKey k with
+    | some (b, i) => validBlock b && validId i
+    | none => false
+
+/-- `big.Int.SetString(s, 10)` succeeds: an optional sign and at least one digit -/
+def intParses (s : Bytes) : Bool :=
+  let d := match s with
+    | 43 :: r => r
+    | 45 :: r => r
+    | r => r
+  !d.isEmpty && d.all isDigit
+
+/-- `BasicEncoder.GetMedian` on unsigned decimal strings: `none` = it panics (a value does not parse);
+"0" for no value at all -/
+def getMedian (bs : List Bytes) : Option Bytes :=
+  if bs.all intParses then some (decOf (median (bs.map decVal))) else none
 
 /-! ## a strict decoder for encoded observations
 
